@@ -380,6 +380,11 @@ def evalOp (op input : String) : Option String :=
         let i ← arg
         let s1 ← HttpTable.step s (.writeFail i)
         some (s1, outs ++ [if s1.panicked then "panic" else "err"])
+      | some 'B' => do
+        -- a Write whose envelope the codec rejects: an error, and the table is not touched
+        let i ← arg
+        let _ ← s.objs[i]?
+        some (s, outs ++ ["err"])
       | some 'R' => do
         let i ← arg
         some (s, outs ++ [HttpTable.readOutcome s i])
